@@ -544,8 +544,17 @@ def run(ctx):
                "one-row-per-character lines only)")
     ctx.exhaustive = True
     first = True
+    # unbounded part: any number of engines, arbitrary confidences (Apalache, spec/EngineMergeInd.tla); tied to EngineMerge.tla by
+    # PROPERTY RefinesInd of spec/EngineMergeRef.tla on every bounded configuration below
+    from .. import indproof
+    indproof.apalache_obligations(ctx, "EngineMergeInd", indproof.EM_RUNS)
     for c in configs(ctx.tier):
         ctx.tlc("EngineMerge", constants=consts_of(c), invariants=INVS, workers=4, timeout=1800, label="EngineMerge " + _lab(c))
+        ctx.tlc("EngineMergeRef", constants=consts_of(c), properties=["RefinesInd"], workers=4, timeout=1800, coverage=False, count=False,
+                label="EngineMergeRef %s (RefinesInd)" % _lab(c))
+        if first:
+            ctx.tlc("EngineMergeRef", constants=consts_of(c, "ge"), properties=["RefinesInd"], workers=4, timeout=1800, coverage=False,
+                    count=False, expect_violation="RefinesInd", label="EngineMergeRef %s Mut=ge (self-test)" % _lab(c))
         if first:
             small = {"NEngines": 3, "NLines": 1, "levels": [NONE, 0, 4, 8]}
             for mut, inv, lens in (("ge", "Correct", (1,)), ("no_chars", "SameEngine", (1,)), ("sums", "Correct", (1, 2)),
